@@ -520,6 +520,30 @@ def suffix_arity(repo, res):
         def __fspath__(self):
             return self.p
 
+        def joinpath(self, *o):
+            out = self
+            for x in o:
+                out = out / x
+            return out
+
+        def with_suffix(self, suf):
+            head, _, tail = self.p.rpartition("/")
+            stem = tail.rsplit(".", 1)[0] if "." in tail[1:] else tail
+            return _P((head + "/" if head else "") + stem + suf)
+
+        def with_name(self, name):
+            head, _, _tail = self.p.rpartition("/")
+            return _P((head + "/" if head else "") + str(name))
+
+        # the pathlib ways of writing a file go through the same virtual files as the builtin open()
+        def open(self, mode="r", **k):
+            return _P.opener(self.p, mode)
+
+        def write_text(self, text, **k):
+            f_ = _P.opener(self.p, "w")
+            f_.write(text)
+            return len(text)
+
     def run_write(code, suffixes):
         written = {}
 
@@ -543,8 +567,9 @@ def suffix_arity(repo, res):
             def __exit__(self, *a):
                 return False
         it_ = fresh()
+        _P.opener = staticmethod(lambda p_, mode="r": _F(p_, mode))
         for nm in ("Path", "pathlib.Path"):
-            it_.overrides[nm] = _PyCall(lambda p_: _P(p_))
+            it_.overrides[nm] = _PyCall(lambda *p_: _P(p_[0]).joinpath(*p_[1:]) if p_ else _P("."))
         it_.overrides["open"] = _PyCall(lambda p_, mode="r", **k: _F(p_, mode))
         it_.overrides["os.path.join"] = _PyCall(lambda *a: "/".join(str(x).rstrip("/") for x in a))
         try:
